@@ -1931,7 +1931,12 @@ impl<'a> Parser<'a> {
         let start = self.current.span;
         self.require_token(&TokenKind::Import)?;
 
-        let type_only = self.match_token(&TokenKind::Type);
+        // `import type ...` (but `import type from "m"` imports a default named `type`)
+        let type_only = self.check(&TokenKind::Type)
+            && !self.peek_is(&TokenKind::From)
+            && !self.peek_is(&TokenKind::Comma)
+            && self.match_token(&TokenKind::Type);
+        let mut erased_specifiers = false;
 
         let mut specifiers = vec![];
 
@@ -1987,6 +1992,15 @@ impl<'a> Parser<'a> {
         } else if self.match_token(&TokenKind::LBrace) {
             while !self.check(&TokenKind::RBrace) && !self.is_at_end() {
                 let spec_start = self.current.span;
+                // Inline type-only specifier: { type T, value } - erased
+                let inline_type = self.check(&TokenKind::Type)
+                    && !self.peek_is(&TokenKind::Comma)
+                    && !self.peek_is(&TokenKind::RBrace)
+                    && !self.peek_is(&TokenKind::As);
+                if inline_type {
+                    self.advance();
+                    erased_specifiers = true;
+                }
                 let imported = self.parse_identifier()?;
                 let local = if self.match_token(&TokenKind::As) {
                     self.parse_identifier()?
@@ -2013,9 +2027,10 @@ impl<'a> Parser<'a> {
 
         let span = self.span_from(start);
         Ok(ImportDeclaration {
+            // An import whose every specifier is type-only is erased as a whole
+            type_only: type_only || (erased_specifiers && specifiers.is_empty()),
             specifiers,
             source,
-            type_only,
             span,
         })
     }
